@@ -155,7 +155,12 @@ for _K in (2, 3, 4, 5):
     PART_SPECS["K%d" % _K] = (KaryPartition, _K)
     PART_SPECS["RK%d" % _K] = (RandomKaryPartition, _K)
 PART_NAMES = list(PART_SPECS)
-EQUAL_SIZE = {"Bin", "DimBin", "K2", "K3", "K4", "K5"}
+# larger arities: used by the partition-only workloads of C02/C03 (the properties quantify over all K >= 2)
+for _K in (6, 7, 8, 10, 16):
+    PART_SPECS["K%d" % _K] = (KaryPartition, _K)
+    PART_SPECS["RK%d" % _K] = (RandomKaryPartition, _K)
+PART_NAMES_WIDE = list(PART_SPECS)
+EQUAL_SIZE = {"Bin", "DimBin", "K2", "K3", "K4", "K5", "K6", "K7", "K8", "K10", "K16"}
 MIDPOINT_PARTS = ["Bin", "DimBin", "K2", "K4"]  # the pulled centre lies on a face between children
 BINARY_PARTS = ["Bin", "RBin", "K2", "RK2"]
 RNG_FREE_1D = ["Bin", "DimBin", "K2", "K3", "K4", "K5"]  # no random numbers consumed when d == 1
